@@ -85,6 +85,10 @@ pub static mut SNAPSHOT: [u8; libc::verif::ARENA] = [0; libc::verif::ARENA];
 /// takes effect. Empty; a harness binds a monitor onto `event_hook` with #[kani::stub].
 pub fn event_hook(_kind: u8) {}
 
+/// number of installation requests that reached the core (incremented by the recorders that stand for
+/// `WhenCalled::will_execute_guard` / `will_return_boolean_guard`)
+pub static mut CORE_CALLS: usize = 0;
+
 /// ghost "a panic is in flight" flag, bound onto std::thread::panicking with #[kani::stub]
 pub static mut PANICKING: bool = false;
 pub fn ghost_panicking() -> bool {
@@ -115,6 +119,7 @@ pub fn on_panic(kind: u32, _line: u32) {
         assert!(JUSTIFIED, "OBL:panic.justified: the library refused although the obligation's acceptance condition holds");
         if NEED_NO_EVENTS {
             assert!(libc::verif::N_EVENTS == 0, "OBL:panic.before-write: refusal must be raised before anything is mapped, protected or written");
+            assert!(CORE_CALLS == 0, "OBL:panic.before-install: a refused installation never reaches the installer (it is refused before, not after, the function is patched)");
         }
         if NEED_MEM_EQ {
             // for-all over the arena by a nondeterministic index (loop-free)
